@@ -721,8 +721,13 @@ func (i *interpreter) intercept(fn *ssa.Function, args []value) nativeFn {
 		if !anySym {
 			return nf.conc
 		}
+		if anySymstr(args...) && !anySmtStr(args...) {
+			if bm, ok := byteModels[name]; ok {
+				return bm
+			}
+		}
 		if nf.sym != nil {
-			return nf.sym
+			return func(fr *frame, a []value) value { return nf.sym(fr, lowerToSmt(a)) }
 		}
 		return func(fr *frame, a []value) value {
 			fr.i.R.inconclusive("symbolic argument to " + name + " (no symbolic model)")
@@ -747,18 +752,18 @@ func (i *interpreter) intercept(fn *ssa.Function, args []value) nativeFn {
 // hasSym reports whether a (shallow) argument value is or directly contains a symbolic scalar.
 func hasSym(v value) bool {
 	switch x := v.(type) {
-	case symv:
+	case symv, symstr:
 		return true
 	case *absSlice:
 		return true
 	case []value:
 		for _, e := range x {
-			if isSym(e) {
+			if isSymAny(e) {
 				return true
 			}
 		}
 	case iface:
-		return isSym(x.v)
+		return isSymAny(x.v)
 	}
 	return false
 }
@@ -834,6 +839,20 @@ func deepEqSym(a, b value) value {
 }
 
 func deepEq(a, b value, conj *[]string) bool {
+	if isSymstr(a) || isSymstr(b) {
+		x, ok1 := strBytes(a)
+		y, ok2 := strBytes(b)
+		if !ok1 || !ok2 {
+			return deepEq(lowerToSmt([]value{a})[0], lowerToSmt([]value{b})[0], conj)
+		}
+		switch e := symstrEq(x, y).(type) {
+		case bool:
+			return e
+		case symv:
+			*conj = append(*conj, e.term)
+			return true
+		}
+	}
 	if isSym(a) || isSym(b) {
 		ta, ka := toTerm(a)
 		tb, kb := toTerm(b)
